@@ -146,6 +146,15 @@ type WindowConfig struct {
 	TriggerCondition string                              `json:"triggerCondition,omitempty"`
 	SelectFields    map[string]aggregator.AggregateType `json:"selectFields,omitempty"`
 	FieldAlias       map[string]string                   `json:"fieldAlias,omitempty"`
+	// FieldExpressions mirrors Config.FieldExpressions: per SELECT alias, the
+	// expression an aggregate is computed over (sum(v*2) -> "v*2"). The global
+	// window feeds the aggregate with the expression's per-row value instead of
+	// the plain column in FieldAlias. ExpressionEvaluator evaluates such an
+	// expression against a row; the stream sets it to the evaluator the group
+	// aggregator uses, so both paths compute the same value. When nil the
+	// window falls back to the expression bridge.
+	FieldExpressions    map[string]FieldExpression                                   `json:"fieldExpressions,omitempty"`
+	ExpressionEvaluator func(expr FieldExpression, row map[string]any) (any, error) `json:"-"`
 }
 
 // FieldExpression field expression configuration
